@@ -1,6 +1,5 @@
 SPECIFICATION TSpec
-CONSTANTS Effs = {"p1","p0","up","upr","ran","nx","k2","pk","none"}
-  KeptUL = 1
+CONSTANTS Effs = {"p1","p0","up","upr","upk","p1f","ran","nx","k2","pk","none"}
 INVARIANT NotAccepted
 CONSTRAINT TrackMax
 POSTCONDITION Post
